@@ -345,8 +345,10 @@ def check_property(prop, tier="quick", seed=0, only_unit=None, jobs=None, verbos
             e = per_fn.setdefault(t, {"sha256_16": fn_hashes[t], "units": []})
             e["units"].append(u.name)
 
-    os.makedirs(os.path.join(VERIF, "replays"), exist_ok=True)
-    os.makedirs(os.path.join(VERIF, "evidence"), exist_ok=True)
+    REPLAYS = os.environ.get("FVC_REPLAY_DIR") or os.path.join(VERIF, "replays")
+    EVID = os.environ.get("FVC_EVIDENCE_DIR") or os.path.join(VERIF, "evidence")
+    os.makedirs(REPLAYS, exist_ok=True)
+    os.makedirs(EVID, exist_ok=True)
     exit_code = 0
     lines = []
     seen_b = set()
@@ -355,7 +357,7 @@ def check_property(prop, tier="quick", seed=0, only_unit=None, jobs=None, verbos
             continue
         seen_b.add((uname, cf["obligation"]))
         fname = "".join(ch if ch.isalnum() or ch in "._-" else "_" for ch in f"{prop}_{uname}_{cf['obligation']}")[:150]
-        path = os.path.join(VERIF, "replays", fname + ".json")
+        path = os.path.join(REPLAYS, fname + ".json")
         json.dump({"property": prop, "unit": uname, "skeleton": sk, "obligation": cf["obligation"], "bounded": True, "failing_input": cf, "verifier_output": "bounded run-time contract check failed on the real code"}, open(path, "w"), indent=1)
         lines.append(f"VIOLATION property={prop} replay={path}")
         exit_code = 1
@@ -366,7 +368,7 @@ def check_property(prop, tier="quick", seed=0, only_unit=None, jobs=None, verbos
             if f:
                 known_hits.append((f, uname, cf["obligation"], sk))
                 continue
-            path = os.path.join(VERIF, "replays", f"{prop}_{uname}_{abs(hash(sk_id(sk))) % 10**8}.json")
+            path = os.path.join(REPLAYS, f"{prop}_{uname}_{abs(hash(sk_id(sk))) % 10**8}.json")
             json.dump({"property": prop, "unit": uname, "skeleton": sk, "obligation": cf["obligation"], "why": why, "failing_input": cf, "verifier_output": why}, open(path, "w"), indent=1)
             lines.append(f"VIOLATION property={prop} replay={path}")
             exit_code = 1
@@ -382,7 +384,7 @@ def check_property(prop, tier="quick", seed=0, only_unit=None, jobs=None, verbos
         res, o = lst[0]
         rp = o.get("replay") or {"how": "none"}
         fname = "".join(ch if ch.isalnum() or ch in "._-" else "_" for ch in f"{prop}_{uname}_{obname}")[:150]
-        path = os.path.join(VERIF, "replays", fname + ".json")
+        path = os.path.join(REPLAYS, fname + ".json")
         json.dump(
             {
                 "property": prop,
@@ -469,7 +471,7 @@ def check_property(prop, tier="quick", seed=0, only_unit=None, jobs=None, verbos
         "wall_s": round(time.time() - t0, 2),
         "violations": sum(1 for l in lines if l.startswith("VIOLATION")),
     }
-    json.dump(ev, open(os.path.join(VERIF, "evidence", f"{prop}.json"), "w"), indent=1)
+    json.dump(ev, open(os.path.join(EVID, f"{prop}.json"), "w"), indent=1)
     for l in lines:
         print(l)
     print(f"{prop} [{tier}] units={len(sel)} jobs={len(joblist)} paths={paths} obligations={n_obl} discharged={n_dis} refuted={n_ref} (known {len(known_hits)}) undecided={n_und} solver={solver_s:.1f}s wall={time.time()-t0:.1f}s exit={exit_code}")
